@@ -172,6 +172,12 @@ Record label := mkl {
                                          k+1 right after the k-th verifier invocation.  Aggregate does not
                                          consult ctx anywhere in its loop, so [accepts] and [monitor1] ignore
                                          this field: a cancellation must not change what is published *)
+  l_call : N * N;                     (* (duty type id, epoch) of the objects of this call *)
+  l_hist : list (N * N);              (* the calls this aggregator and its verifier served before, oldest first
+                                         (position in the sequence = length).  Aggregator and verifier keep no
+                                         state between calls, so [accepts] and [monitor1] ignore both fields:
+                                         the outcome of a call must not depend on earlier calls (e.g. on a domain
+                                         resolved for an earlier epoch) *)
   l_err : option err;                 (* None = Aggregate returned nil *)
   l_calls : list (list (N * pobs))    (* the set received by each subscriber call, in call order *)
 }.
